@@ -25,7 +25,7 @@ func crcWindowCase(n int) {
 }
 
 func VerifHarness_C16_crc_window() {
-	crcWindowCase([]int{4, 8, 12, 16, 20, 32, 64, 252, 256}[rt.Choice("n", 9)])
+	crcWindowCase([]int{4, 8, 12, 16, 20, 32, 36, 64, 68, 252, 256}[rt.Choice("n", 11)])
 }
 
 func VerifHarness_C16_crc_window_big() {
